@@ -188,6 +188,13 @@ class Evaluator:
             return mk(a + b)
         if isinstance(e, ast.Compare) and len(e.ops) == 1 and type(e.ops[0]) in _CMP:
             return self._lift(_CMP[type(e.ops[0])], self.ev(e.left), self.ev(e.comparators[0]))
+        if isinstance(e, ast.Compare) and all(type(o) in _CMP for o in e.ops):
+            vals = [self.ev(e.left)] + [self.ev(c) for c in e.comparators]
+            ops = [_CMP[type(o)] for o in e.ops]
+
+            def chain(*a):
+                return all(op(x, y) for op, x, y in zip(ops, a, a[1:]))
+            return self._lift(chain, *vals)
         if isinstance(e, ast.Subscript):
             base = self.ev(e.value)
             sl = e.slice
@@ -246,6 +253,15 @@ class Evaluator:
                 return self._lift(fn, *args)
             if f.id == "range":
                 return self._lift(lambda *a: tuple(range(*a)) if len(range(*a)) < 5000 else (_ for _ in ()).throw(ValueError()), *args)
+        if isinstance(f, ast.Attribute) and isinstance(f.value, ast.Name) and f.value.id == "self" and self.cls is not None:
+            # self.m(args) where m is a one-line `return <expr>` method: evaluate the expression
+            k, m = self.repo.find_method(self.cls, f.attr)
+            if m is not None:
+                body = [s for s in m.body if not (isinstance(s, ast.Expr) and isinstance(s.value, ast.Constant))]
+                ps = [a.arg for a in m.args.args][1:]
+                if len(body) == 1 and isinstance(body[0], ast.Return) and body[0].value is not None and len(ps) == len(args):
+                    return self.sub(module=k.module, cls=self.cls, env=dict(zip(ps, args))).ev(body[0].value)
+            return UNK
         if isinstance(f, ast.Attribute):
             if isinstance(f.value, ast.Name) and f.value.id == "struct" and f.attr == "calcsize":
                 return self._lift(struct.calcsize, *args)
@@ -269,3 +285,49 @@ def single(x):
     if isinstance(x, K):
         return True, x.v
     return False, None
+
+
+RAISES = object()
+
+
+def eval_simple_function(repo, cls, fn, argvals, depth=0):
+    """Abstractly evaluate a small pure method (if / return / raise / simple assignments) for
+    constant arguments.  -> K / Alt / UNK / RAISES."""
+    ps = [a.arg for a in fn.args.args]
+    if ps and ps[0] in ("self", "cls"):
+        ps = ps[1:]
+    env = dict(zip(ps, argvals))
+    ev = Evaluator(repo, cls.module if cls is not None else None, cls, env)
+
+    def block(stmts):
+        for s in stmts:
+            if isinstance(s, ast.Expr) and isinstance(s.value, ast.Constant):
+                continue
+            if isinstance(s, ast.Return):
+                if s.value is None:
+                    return K(None)
+                v = s.value
+                # return self.other(args)  -> evaluate callee
+                if isinstance(v, ast.Call) and isinstance(v.func, ast.Attribute) and isinstance(v.func.value, ast.Name) \
+                        and v.func.value.id == "self" and cls is not None and depth < 4:
+                    k, m = repo.find_method(cls, v.func.attr)
+                    if m is not None:
+                        return eval_simple_function(repo, cls, m, [ev.ev(a) for a in v.args], depth + 1)
+                return ev.ev(v)
+            if isinstance(s, ast.Raise):
+                return RAISES
+            if isinstance(s, ast.If):
+                t = alts(ev.ev(s.test))
+                if t is None or len(t) != 1:
+                    return UNK
+                r = block(s.body if t[0] else s.orelse)
+                if r is not None:
+                    return r
+                continue
+            if isinstance(s, ast.Assign) and len(s.targets) == 1 and isinstance(s.targets[0], ast.Name):
+                env[s.targets[0].id] = ev.ev(s.value)
+                continue
+            return UNK
+        return None
+    r = block(fn.body)
+    return K(None) if r is None else r
